@@ -13,7 +13,7 @@ PROPS = ["C01", "C02", "C04", "C05", "C06", "C07", "C08", "C09", "C10", "C11", "
          "C16", "C17", "C18", "C19", "C20"]
 
 
-def run_check(prop: str, tier: str, root: str) -> int:
+def run_check(prop: str, tier: str, root: str, write: bool = True) -> int:
     try:
         mod = importlib.import_module(f".rules.{prop.lower()}", package=__package__)
     except ModuleNotFoundError:
@@ -23,7 +23,7 @@ def run_check(prop: str, tier: str, root: str) -> int:
         repo = Repo(root)
         run = Run(prop, tier, repo)
         mod.check(run)
-        return finish(run)
+        return finish(run, write=write)
     except AnalysisError as e:
         print(f"ANALYSIS-ERROR property={prop}: {e}")
         return 2
@@ -40,6 +40,7 @@ def main(argv=None):
     c.add_argument("prop")
     c.add_argument("--tier", default=os.environ.get("VERIF_TIER", "quick"), choices=["quick", "thorough"])
     c.add_argument("--repo", default=os.environ.get("UTVERIF_REPO", REPO_ROOT_DEFAULT))
+    c.add_argument("--no-evidence", action="store_true", help="developer runs against scratch copies")
     r = sub.add_parser("replay")
     r.add_argument("path")
     r.add_argument("--repo", default=os.environ.get("UTVERIF_REPO", REPO_ROOT_DEFAULT))
@@ -50,7 +51,7 @@ def main(argv=None):
     args = ap.parse_args(argv)
 
     if args.cmd == "check":
-        return run_check(args.prop.upper(), args.tier, args.repo)
+        return run_check(args.prop.upper(), args.tier, args.repo, write=not args.no_evidence)
     if args.cmd == "all":
         worst = 0
         for p in PROPS:
